@@ -14,7 +14,7 @@ from harness import runs, runcommon, actcorr, translate, fpcorr, fpcorr2, fpcorr
 
 ID = "C09"
 NEEDS_GEN = True
-THEOREM_MODULES = ["JF.Props.C09", "JF.Props.Footprints", "JF.Props.Footprints2", "JF.Props.SystemInv", "JF.Props.SystemInv2", "JF.Props.Footprints3", "JF.Props.SystemInv3", "JF.Props.SystemInv3Loop", "JF.Props.C09Pools", "JF.Props.C09PoolsClosed", "JF.Gen.WiringsSound"]
+THEOREM_MODULES = ["JF.Props.C09", "JF.Props.Footprints", "JF.Props.Footprints2", "JF.Props.SystemInv", "JF.Props.SystemInv2", "JF.Props.Footprints3", "JF.Props.SystemInv3", "JF.Props.SystemInv3Loop", "JF.Props.C09Pools", "JF.Props.C09PoolsClosed", "JF.Props.C09PoolsClosed2", "JF.Gen.WiringsSound"]
 COMPONENTS = ["act"]
 ASSUMPTIONS = [
     "footprint tables (JF/Model/Wiring.lean: `affects`, `reads`) are hypotheses of the link theorem (`FootprintsSound`); for point-mass "
